@@ -131,6 +131,36 @@ CHECKS["C05"] = dict(
           "only (C09 for containers); C++ move semantics assumed to be value moves."),
     technique="Lean 4 proof (frame theorem over a storage-level model) + dump-based differential correspondence")
 
+CHECKS["C02"] = dict(
+    category="proof",
+    text=("Static typing model (Model/Typing.lean: typeChecking/assertTypeUniform, the operators' type() rules, the built-in "
+          "signature and result-type tables GENERATED from every builtin_*.cpp/.h on each run) with Lean theorems "
+          "(BlocV.Proofs.C02) that relational operators and unary +/- produce values of exactly their static type for ALL "
+          "operands; the property itself is checked on the implementation node by node — Expression::type() in parsing mode "
+          "vs the type of the evaluated value for every operator and ~45 built-ins x operand classes x (typed variable | opaque "
+          "function result) — and program by program (one unit vs statement-at-a-time; `$` variables and loop iterators). "
+          "Cells where the compile-time type is contradicted at run time are recorded known findings."),
+    design_ref="DESIGN.md §6 C02",
+    note=("Trusted: Lean kernel, extract/sigs.py; type soundness is proved for part of the operator set only — the rest of the "
+          "matrix is decided by exhaustive comparison of static and dynamic types on the implementation, which is testing."),
+    technique="generated typing tables + Lean proof (operator subset) + exhaustive static/dynamic type comparison")
+
+CHECKS["C01"] = dict(
+    category="proof",
+    text=("C-level hazards (null dereference of a typed accessor, signed overflow, out-of-range double->integer cast, foreign "
+          "exception, divergence) are OUTCOMES of the Lean model, not things it cannot do: theorems (BlocV.Proofs.C01 together "
+          "with C03 div_mod_no_hazard / pow_no_hazard) show the modelled operators never reach one; for the constructs where the "
+          "pinned code does reach one, the exact region is a recorded known finding. Tied to /repo by running EVERY built-in "
+          "(generated keyword list) x arity x operand class x operand source, every operator and member method, and generated "
+          "programs mutated at every token position + byte edits, under ASan+UBSan+float-cast-overflow through Parser::parse, "
+          "the C API and the statement-at-a-time path: any outcome other than value / parse error / runtime error is reported."),
+    design_ref="DESIGN.md §6 C01",
+    note=("Trusted: Lean kernel; sanitizers as the oracle for undefined behaviour; the no-hazard theorems cover the modelled "
+          "operators — for built-ins and members the verdict comes from the exhaustive sanitizer run (testing), with every "
+          "crash either a listed known finding (construct + crash class + witness) or a violation. Stack/heap exhaustion is "
+          "outside the property's domain (bounded nesting / sizes in the generators)."),
+    technique="Lean 4 no-hazard theorems (operators) + exhaustive construct x operand-class sanitizer run + token-level text mutation")
+
 NOT_YET = {}
 
 ALL = ["C%02d" % i for i in range(1, 20)]
